@@ -49,7 +49,7 @@ Definition fuelA (n : Z) : nat := Z.to_nat (4 * n + 12).
 Definition fuelD (cap : Z) : nat := Z.to_nat (2 * cap + 12).
 Definition fuelC (cap n : Z) : nat := Z.to_nat (2 * cap + n + 12).
 Definition roundsC (cap n : Z) : nat := Z.to_nat (n + 3).
-Definition fuelB (n c06 : Z) : nat := Z.to_nat (5 * n + c06 + 16).
+Definition fuelB (n c06 : Z) : nat := Z.to_nat (6 * n + c06 + 20).
 Definition fuelS (n : Z) : nat := Z.to_nat (2 * n + 8).
 (* socket buffer of the poll-event pipe: far larger than any number of samples of a case *)
 Definition PCAP : Z := 65536.
